@@ -210,6 +210,9 @@ def run(run):
                     except AnalysisError:
                         exps = set()
                     okv = bool(exps)
+                    if exps and exps <= {"True", "False"}:
+                        # a verdict variable set to a constant on each path: the dominance check above is what matters
+                        break
                     for t in exps:
                         try:
                             e_ = ast.parse(t, mode="eval").body
